@@ -1,6 +1,7 @@
 """C10 - defragmenting a file preserves its content.
 
-Composition of the whole reader with the whole writer through simulated storage (fault-free):
+Composition of the whole reader with the whole writer through simulated storage (15% of the sources are
+files cut short by a crash of their producer; otherwise fault-free):
 source = stub-made or writer-made non-DAQmx world; destination = SimFS path / SimFile stream /
 real path, with or without index."""
 import io
@@ -22,12 +23,12 @@ LEVEL = 'exploration'
 N = {'quick': 28000, 'thorough': 1500000}
 RULE = ('seeded non-DAQmx source worlds (stub-made: fragmented over 1-6 segments, rarely 100+, empty / typeless / '
         'property-only channels, strings, timestamps over the full raw range, all property types, optional NI_Scale '
-        'properties; or TdmsWriter-made) x source given as SimFS path / SimFile stream / BytesIO x destination SimFS '
+        'properties; or TdmsWriter-made; 15% cut short at a seeded byte offset, as a crashed producer leaves them) x source given as SimFS path / SimFile stream / BytesIO x destination SimFS '
         'path / SimFile stream / real path x index on/off x version; source and destination are read with '
         'raw_timestamps=True and compared: groups, channels, properties, lengths, bit-identical raw values, dtype '
         'when len >= 1, scaled data; destination parsed by the strict parser; descriptor accounting. distinct = '
         '(source shape, src kind, dst kind, index); non-trivial = a channel with >= 1 value was copied')
-EXPECTED_PROBES = ['channel-over-1MiB', 'typeless-channel', 'empty-string-or-timestamp-channel', 'string-channel', 'timestamp-channel',
+EXPECTED_PROBES = ['truncated-source', 'channel-over-1MiB', 'typeless-channel', 'empty-string-or-timestamp-channel', 'string-channel', 'timestamp-channel',
                    'scaled-channel', 'many-segments', 'dst-index', 'writer-made-source']
 
 
@@ -52,7 +53,9 @@ def generate(rng, tier):
         src = {'kind': 'stub', 'spec': spec}
     return {'source': src, 'src_kind': rng.choice(['simpath', 'simstream', 'bytesio']),
             'dst_kind': rng.choice(['simpath', 'simstream', 'realpath']), 'index': rng.random() < 0.4,
-            'version': rng.choice([4712, 4713])}
+            'version': rng.choice([4712, 4713]),
+            # the source is a file a crashed producer left behind: cut at this fraction of its length (None: complete)
+            'cut': rng.random() if rng.random() < 0.15 else None}
 
 
 def content(tf):
@@ -110,6 +113,10 @@ def execute(case):
             if not data:
                 res.skipped_ops += 1
                 return res
+        if case.get('cut') is not None and len(data) > 8:
+            data = data[:4 + int(case['cut'] * (len(data) - 4))]
+            res.probe('truncated-source')
+            res.fault('crash')
         st.put('src.tdms', data)
         try:
             ref = content(lib.TdmsFile.read(io.BytesIO(data), raw_timestamps=True))
@@ -193,8 +200,8 @@ def execute(case):
 
 def shrink_candidates(case):
     from ..shrink import spec_candidates
-    for k, v in (('src_kind', 'bytesio'), ('dst_kind', 'simpath'), ('index', False), ('version', 4712)):
-        if case[k] != v:
+    for k, v in (('src_kind', 'bytesio'), ('dst_kind', 'simpath'), ('index', False), ('version', 4712), ('cut', None)):
+        if case.get(k) != v:
             c = dict(case)
             c[k] = v
             yield c
